@@ -272,6 +272,10 @@ func fixedScenarios() []fixed {
 		sc.Link, sc.Seg, sc.End = "tcp", "cut10", "link-drop"
 		sc.Bursts = []burst{{Frames: 30, MinSz: 1, MaxSz: 500}}
 	})
+	for _, mf := range []int{0, 255, 128, 8} {
+		mk(fmt.Sprintf("maxframe-%d", mf), func(sc *scenario) { sc.MaxFrame, sc.TTLMax = mf, 2; sc.Writes = []int{5, 300, 5, 2000}; sc.End = "app-close" })
+	}
+	mk("maxframe-0-tcp-accept", func(sc *scenario) { sc.Link, sc.Seg, sc.Mode = "tcp", "cut10", "accept"; sc.MaxFrame, sc.TTLMax = 0, 3; sc.Writes = []int{700, 1, 90} })
 	mk("maxframe-1-ttl-3", func(sc *scenario) { sc.MaxFrame, sc.TTLMax = 1, 3; sc.Writes = []int{5, 5, 5, 5}; sc.End = "app-close" })
 	// misbehaving TNC: must never crash the process
 	mk("malformed-short-X-0", func(sc *scenario) { sc.ShortX = 0 })
@@ -334,7 +338,7 @@ func randomStream(seed int64, i int) scenario {
 	if sc.Mode != "accept" && sc.Seed%3 == 0 {
 		sc.EarlyData = 1 + int(sc.Seed/3)%5
 	}
-	sc.MaxFrame = vrt.Pick(r, []int{1, 2, 4, 7})
+	sc.MaxFrame = vrt.Pick(r, []int{1, 2, 4, 7, 1, 2, 4, 7, 0, 255, 3, 127}) // the TNC reports one byte: any value can come back
 	sc.TTLMax = vrt.Pick(r, []int{1, 1, 1, 2, 2, 3})
 	sc.RegX = r.Intn(10) == 0
 	sc.RBuf = vrt.Pick(r, []int{1, 7, 64, 300, 4096})
